@@ -119,7 +119,19 @@ func c18Run(nw int, rowset bool) {
 			continue
 		}
 		if k == "a" {
-			vAssert(len(r.cells) >= ncells && len(r.cells) <= ncells+1, "written-big-row-has-a-real-shape")
+			// the states the big row really had: its original cells plus one per completed non-deleting
+			// writer; after a deleting writer, only what later writers put back
+			adders, deleted := 0, false
+			for _, w := range ws {
+				if w.key == k && (w.kind == 0 || w.kind == 2) {
+					adders++
+				}
+				if w.key == k && w.kind == 1 {
+					deleted = true
+				}
+			}
+			n := len(r.cells)
+			vAssert((n >= ncells && n <= ncells+adders) || (deleted && n >= 1 && n <= adders), "written-big-row-has-a-real-shape")
 			continue
 		}
 		orig, had := vals[k]
